@@ -507,7 +507,7 @@ MarkAdd(name, ids, pick) ==
            nt == [old EXCEPT !.M = @ \cup new, !.def = [@ EXCEPT !.s = @ \o newSeq], !.U = @ \cup new]
            tc1 == [c \in DOMAIN toConv |-> IF c \in old.convs THEN toConv[c] \cup new ELSE toConv[c]]
            tg1 == Inherit([tags EXCEPT ![name] = nt], allS)
-           tg2 == [tg1 EXCEPT ![name].U = {}]             \* the mark itself is decided (manager.go: Uncertain = {})
+           tg2 == [tg1 EXCEPT ![name].U = old.U]          \* the edited ids are decided for the mark itself; a pending query change stays pending
            b0 == Bundle(tg2, flags, jobs, use, [during EXCEPT !.res = @ \cup new], tc1)
            b1 == StartTag(b0, indexes, pick)
            b2 == StartConv(b1, indexes)
@@ -520,7 +520,7 @@ MarkDel(name, ids, pick) ==
            gone == Range(ids) \cap old.M
            nt == [old EXCEPT !.M = @ \ gone, !.def = [@ EXCEPT !.s = SeqOfSet(old.M \ gone)], !.U = @ \cup gone]
            tg1 == Inherit([tags EXCEPT ![name] = nt], allS)
-           tg2 == [tg1 EXCEPT ![name].U = {}]
+           tg2 == [tg1 EXCEPT ![name].U = old.U]
            b0 == Bundle(tg2, flags, jobs, use, [during EXCEPT !.res = @ \cup gone], toConv)
            b1 == StartTag(b0, indexes, pick)
            b2 == StartConv(b1, indexes)
